@@ -1,8 +1,7 @@
 """C05 extra step: (1) run the real CLI built with the race detector on many small files with several
 readers and workers; a race report (or a hang) is a concrete failing schedule.  (2) trace inclusion through
 the real CLI binary: the CLI built with the tag `verif` runs its hidden command `veriftrace` (real flag
-plumbing -> batcher -> extractor -> RunAggregationLoop -> histogram renderer, event log recording, the render
-ticker sped up through the hook verifTick); the log is turned into an `atrace` case and checked by the Lean
+plumbing -> batcher -> extractor -> RunAggregationLoop -> histogram renderer, event log recording); the log is turned into an `atrace` case and checked by the Lean
 driver against the pipeline and aggregation-loop transition systems."""
 import os, shutil, subprocess, sys
 sys.path.insert(0, os.path.dirname(__file__))
@@ -60,7 +59,7 @@ def cli_trace(ctx, rnd, violations):
         out = os.path.join(d, "trace.txt")
         cmd = [exe, "veriftrace", "-m", CLI_MATCH, "-i", "{1}", "-e", "{0}", "--batch", str(batch), "--batch-buffer", str(buf),
                "--workers", str(workers), "--readers", str(readers)] + [os.path.join(d, "f%04d" % i) for i in range(len(inputs))]
-        env = dict(os.environ, RARE_VERIF_TRACE=out, RARE_VERIF_TICK_US=str(rnd.pick([200, 500, 2000])))
+        env = dict(os.environ, RARE_VERIF_TRACE=out)
         try:
             rc, so, se = run(cmd, timeout=120, env=env)
         except Exception as e:
